@@ -69,10 +69,45 @@ def simulate_all(df, date, base_targets=None, **kw):
     """All function nodes of the (default) graph as targets, plus the data columns."""
     nodes = computed_nodes(date, base_targets)
     res = simulate(df, date, targets=nodes, **kw)
-    for c in df.columns:
+    for c in (df.columns if isinstance(df, pd.DataFrame) else df):
         if c not in res.columns:
-            res[c] = df[c].to_numpy()
+            res[c] = np.asarray(df[c])
     return res
+
+
+def represent(df: pd.DataFrame, rnd):
+    """(label, data): another valid presentation of the same table, row for row -- some int columns as whole floats,
+    some bool columns as 0/1 numbers (conversions gettsim documents as lossless), any index labelling, a DataFrame
+    or a dict of Series.  The frame passed in must have the internal dtypes."""
+    d = df.copy()
+    n = len(d)
+    parts = []
+    if rnd.random() < 0.7:
+        ints = [c for c, t in TYPES_INPUT_VARIABLES.items() if t is int and c in d.columns]
+        bools = [c for c, t in TYPES_INPUT_VARIABLES.items() if t is bool and c in d.columns]
+        for c in rnd.sample(ints, min(len(ints), rnd.randint(1, 3))):
+            d[c] = d[c].astype(float)
+            parts.append(f"{c} as float")
+        for c in rnd.sample(bools, min(len(bools), rnd.randint(0, 2))):
+            t = rnd.choice([int, float])
+            d[c] = d[c].astype(t)
+            parts.append(f"{c} as {t.__name__}")
+    k = rnd.choice(["default", "shuffled", "gapped", "strings", "reversed", "duplicates"])
+    if k == "shuffled":
+        d.index = rnd.sample(range(n), n)
+    elif k == "gapped":
+        d.index = sorted(rnd.sample(range(3 * n + 5), n))
+    elif k == "strings":
+        d.index = [f"r{i}" for i in rnd.sample(range(n), n)]
+    elif k == "reversed":
+        d.index = list(range(n))[::-1]
+    elif k == "duplicates":
+        d.index = [7] * n
+    parts.append(f"{k} index")
+    if rnd.random() < 0.4:
+        parts.append("dict of Series")
+        return ", ".join(parts), {c: d[c] for c in d.columns}
+    return ", ".join(parts), d
 
 
 def computed_nodes(date: str, targets: tuple | None = None) -> list[str]:
@@ -178,6 +213,8 @@ class Pop:
         p["ges_pflegev_hat_kinder"] = adult and r.random() < 0.6
         p["bruttolohn_m"] = self.money(0.1) if working and not p["selbstständig"] else 0.0
         p["eink_selbst_m"] = self.money(0.1) if p["selbstständig"] else 0.0
+        if p["selbstständig"] and r.random() < 0.1:
+            p["eink_selbst_m"] = -round(r.uniform(0, 3000), 2)  # a business loss
         p["bruttolohn_vorj_m"] = self.money(0.3) if adult else 0.0
         p["priv_rentenv_beitr_m"] = round(r.uniform(0, 300), 2) if working and r.random() < 0.3 else 0.0
         p["elterngeld_nettoeinkommen_vorjahr_m"] = self.money(0.4, 4000) if adult else 0.0
@@ -189,6 +226,8 @@ class Pop:
         p["entgeltp_west"] = round(r.uniform(0, 60), 2) if adult and not h["wohnort_ost"] else 0.0
         p["betreuungskost_m"] = round(r.uniform(0, 600), 2) if alter < 14 and r.random() < 0.4 else 0.0
         p["kapitaleink_brutto_m"] = self.money(0.6, 500) if adult else 0.0
+        if adult and r.random() < 0.08:
+            p["kapitaleink_brutto_m"] = -round(r.uniform(0, 400), 2)  # a capital loss
         p["eink_vermietung_m"] = (round(r.uniform(-800, 1500), 2) if adult and r.random() < 0.2 else 0.0)
         p["jahr_renteneintr"] = p["geburtsjahr"] + r.choice([60, 63, 65, 66, 67])
         p["monat_renteneintr"] = r.randint(1, 12)
@@ -345,9 +384,13 @@ class Pop:
                 p["elterngeld_zu_verst_eink_vorjahr_y_sn"] = self.money(0.2, 400000)
         if relabel:
             # sparse non-negative ids, consistent on all pointer columns
-            pids = r.sample(range(0, 5 * len(rows) + 50), len(rows))
+            # one population in five carries survey-style identifiers: 7-digit person numbers, household numbers
+            # from 10 000 on (so that derived ids of the form 100 * id + counter pass 10^6)
+            big = r.random() < 0.2
+            p0, h0 = (r.choice([1_000_000, 2_345_600]), r.choice([10_000, 12_345])) if big else (0, 0)
+            pids = r.sample(range(p0, p0 + 5 * len(rows) + 50), len(rows))
             pmap = {p["p_id"]: pids[i] for i, p in enumerate(rows)}
-            hids = r.sample(range(0, 5 * len(self.hh) + 20), len(self.hh))
+            hids = r.sample(range(h0, h0 + 5 * len(self.hh) + 20), len(self.hh))
             hmap = {h["hh_id"]: hids[i] for i, h in enumerate(self.hh)}
             for p in rows:
                 p["p_id"] = pmap[p["p_id"]]
